@@ -16,7 +16,7 @@ from pv.runner import Res
 
 ID = "C18"
 RULE = ("generated fragment-F actions x injective renamings of their parameters (fresh names, swaps and cycles of the "
-        "existing names, chains ?a->?b->?c->fresh, mixtures; the map listing the parameters in their own or (40 %) another order) x actions as parsed or (40 %) with literals over the same parameters re-made by Predicate.copy() x probes (call, state).  Non-trivial = the map's new "
+        "existing names, chains ?a->?b->?c->fresh, mixtures; the map listing the parameters in their own or (40 %) another order) x actions as parsed or (40 %) with literals over the same parameters re-made by Predicate.copy(), renamed fresh from the parser or (40 %) after having been grounded and printed (30 % of those: a deep copy taken then) x probes (call, state).  Non-trivial = the map's new "
         "names overlap the old ones and the action has >= 2 parameters and a binary atom or function term over "
         "parameters.  Distinct by (action, map).")
 ASSUMPTIONS = ["maps cover the action's parameters only (as the repository's callers do); constants and quantified "
@@ -98,6 +98,21 @@ def check_case(case):
     world = pddl.World(dom, objects)
     info = {"action": a, "map": case["rename"]}
     renamed = d1.actions[a["name"]]
+    if case.get("use_first"):
+        # the schema is used (grounded, printed, its names read) before it is renamed; optionally a deep copy taken
+        # after that use is the one renamed
+        import copy
+        from pddl_plus_parser.models import Operator as _Op
+        warm_objs = lib_objects(d1, build_objects(d1, objects))
+        for pr in case["probes"][:2]:
+            if pr["action"] == a["name"]:
+                lib_call(lambda: _Op(renamed, d1, list(pr["args"]), warm_objs).ground())
+        lib_call(lambda: (list(renamed.parameter_names), str(renamed), renamed.to_pddl() if hasattr(renamed, "to_pddl") else None))
+        if case.get("rename_copy"):
+            okc, cp = lib_call(copy.deepcopy, renamed)
+            if okc:
+                renamed = cp
+                d1.actions[a["name"]] = cp
     shared = 0
     if case.get("share"):
         oks, shared = lib_call(share_predicates, renamed)
@@ -108,7 +123,7 @@ def check_case(case):
                  for f in (a["pre"] or [], a["eff"]) for x in pddl.walk(f))
     reordered = [k for k, _ in case["rename"]] != pnames
     res.classes = [("overlap" if overlap(m) else "fresh") + ("+binary" if binary else "") + ("+map-reordered" if reordered else "")
-                   + ("+shared-literals" if shared else "")]
+                   + ("+shared-literals" if shared else "") + ("+used-first" if case.get("use_first") else "")]
     res.nontrivial = overlap(m) and len(pnames) >= 2 and binary
     res.key = json.dumps([a, case["rename"]], sort_keys=True)
     if not okr:
@@ -196,7 +211,7 @@ def gen_map(ch, pnames):
 
 
 def gen(ch, tier):
-    ft = G.feats(max_actions=1, max_params=3)
+    ft = G.feats(max_actions=1, max_params=3, p_long_number=0.1, long_decimals=6)
     for _ in range(4):
         case = S.gen_sem_case(ch, tier, ft, n_probes=5, same_action=True)
         if len(case["dom"]["actions"][0]["params"]) >= 2:
@@ -206,6 +221,8 @@ def gen(ch, tier):
     if ch.flag(0.4):
         case["rename"] = ch.shuffle(case["rename"])      # the map lists the parameters in another order
     case["share"] = ch.flag(0.4)
+    case["use_first"] = ch.flag(0.4)
+    case["rename_copy"] = ch.flag(0.3)
     return case
 
 
